@@ -246,12 +246,16 @@ func c10Rules() []c10Rule {
 	return []c10Rule{
 		{Name: "dangling-network", Service: true,
 			Make: func(v int) (map[string]any, map[string]any) { return m("networks", []any{"ghostnet"}), nil },
-			Ctl:  func(v int) (map[string]any, map[string]any) { return m("networks", []any{"realnet"}), m("networks", m("realnet", nil)) }},
+			Ctl: func(v int) (map[string]any, map[string]any) {
+				return m("networks", []any{"realnet"}), m("networks", m("realnet", nil))
+			}},
 		{Name: "dangling-volume", Service: true,
 			Make: func(v int) (map[string]any, map[string]any) {
 				return m("volumes", []any{[]any{"ghostvol:/data", m("type", "volume", "source", "ghostvol", "target", "/data")}[v%2]}), nil
 			},
-			Ctl: func(v int) (map[string]any, map[string]any) { return m("volumes", []any{"realvol:/data"}), m("volumes", m("realvol", nil)) }},
+			Ctl: func(v int) (map[string]any, map[string]any) {
+				return m("volumes", []any{"realvol:/data"}), m("volumes", m("realvol", nil))
+			}},
 		{Name: "dangling-secret", Service: true,
 			Make: func(v int) (map[string]any, map[string]any) { return m("secrets", []any{"ghostsec"}), nil },
 			Ctl: func(v int) (map[string]any, map[string]any) {
@@ -282,17 +286,23 @@ func c10Rules() []c10Rule {
 			Ctl:  func(v int) (map[string]any, map[string]any) { return m("links", []any{"db:alias"}), nil }},
 		{Name: "dangling-volumes-from", Service: true,
 			Make: func(v int) (map[string]any, map[string]any) { return m("volumes_from", []any{"ghost:ro"}), nil },
-			Ctl:  func(v int) (map[string]any, map[string]any) { return m("volumes_from", []any{"db:ro", "container:outside"}), nil }},
+			Ctl: func(v int) (map[string]any, map[string]any) {
+				return m("volumes_from", []any{"db:ro", "container:outside"}), nil
+			}},
 		{Name: "exclusive-network-mode-and-networks", Service: true,
 			Make: func(v int) (map[string]any, map[string]any) {
 				return m("network_mode", "host", "networks", []any{"realnet"}), m("networks", m("realnet", nil))
 			},
-			Ctl: func(v int) (map[string]any, map[string]any) { return m("network_mode", "host"), m("networks", m("realnet", nil)) }},
+			Ctl: func(v int) (map[string]any, map[string]any) {
+				return m("network_mode", "host"), m("networks", m("realnet", nil))
+			}},
 		{Name: "exclusive-dockerfile-and-inline", Service: true,
 			Make: func(v int) (map[string]any, map[string]any) {
 				return m("build", m("context", ".", "dockerfile", "Dockerfile", "dockerfile_inline", "FROM x")), nil
 			},
-			Ctl: func(v int) (map[string]any, map[string]any) { return m("build", m("context", ".", "dockerfile_inline", "FROM x")), nil }},
+			Ctl: func(v int) (map[string]any, map[string]any) {
+				return m("build", m("context", ".", "dockerfile_inline", "FROM x")), nil
+			}},
 		{Name: "exclusive-count-and-device-ids", Service: true,
 			Make: func(v int) (map[string]any, map[string]any) {
 				d := m("capabilities", []any{"gpu"}, "count", 1, "device_ids", []any{"0"})
@@ -363,9 +373,16 @@ func c10Rules() []c10Rule {
 			}},
 		{Name: "secret-with-several-sources",
 			Make: func(v int) (map[string]any, map[string]any) {
-				return nil, m("secrets", m("sec", m("file", "./f", "environment", "E")))
+				// several sources stay several sources whatever else the object carries
+				sec := m("file", "./f", "environment", "E")
+				for k, e := range []map[string]any{m(), m("external", true), m("external", false), m("driver", "custom"), m("labels", m("a", "b")), m("name", "n"), m("driver", "custom", "driver_opts", m("k", "v"))}[v%7] {
+					sec[k] = e
+				}
+				return nil, m("secrets", m("sec", sec))
 			},
-			Ctl: func(v int) (map[string]any, map[string]any) { return nil, m("secrets", m("sec", m("environment", "E"))) }},
+			Ctl: func(v int) (map[string]any, map[string]any) {
+				return nil, m("secrets", m("sec", m("environment", "E")))
+			}},
 		{Name: "config-without-source",
 			Make: func(v int) (map[string]any, map[string]any) {
 				return nil, m("configs", m("cfg", []any{m(), m("labels", m("a", "b"))}[v%2]))
@@ -373,7 +390,11 @@ func c10Rules() []c10Rule {
 			Ctl: func(v int) (map[string]any, map[string]any) { return nil, m("configs", m("cfg", m("external", true))) }},
 		{Name: "config-with-several-sources",
 			Make: func(v int) (map[string]any, map[string]any) {
-				return nil, m("configs", m("cfg", []any{m("file", "./f", "content", "c"), m("file", "./f", "environment", "E"), m("content", "c", "environment", "E")}[v%3]))
+				cfg := []map[string]any{m("file", "./f", "content", "c"), m("file", "./f", "environment", "E"), m("content", "c", "environment", "E"), m("file", "./f", "content", "c", "environment", "E")}[v%4]
+				for k, e := range []map[string]any{m(), m("external", true), m("external", false), m("labels", m("a", "b")), m("name", "n")}[(v/4)%5] {
+					cfg[k] = e
+				}
+				return nil, m("configs", m("cfg", cfg))
 			},
 			Ctl: func(v int) (map[string]any, map[string]any) { return nil, m("configs", m("cfg", m("content", "c"))) }},
 		{Name: "neither-image-nor-build", Service: true,
@@ -505,7 +526,7 @@ func TestC10(t *testing.T) {
 	var cases []c10Case
 	for _, rule := range c10Rules() {
 		for _, pl := range c10Placements {
-			for v := 0; v < 5; v++ {
+			for v := 0; v < 20; v++ {
 				for _, control := range []bool{false, true} {
 					if cs, ok := c10RuleCase(rule, pl, v, control); ok {
 						cases = append(cases, cs)
